@@ -190,7 +190,10 @@ func (r *robustImpl) sessRaw(state string, raw []byte) string {
 	if state != "latent" {
 		v.Connect(8)
 	}
-	if state != "latent" && state != "logon" {
+	if state == "logongap" {
+		// a Logon ahead of the expected number: logged on and recovering straight from the Logon state
+		v.Incoming(hdr("A", 4, "98=0", "108=30"))
+	} else if state != "latent" && state != "logon" {
 		v.Incoming(hdr("A", 1, "98=0", "108=30"))
 	}
 	switch state {
@@ -390,7 +393,7 @@ func genRobust(r *rng, tier string, idx int, o *out, do func(string) string) str
 			res = do("dictxml " + hx(genDictText(r)))
 			o.kind("dictxml." + res)
 		default:
-			stt := r.pick([]string{"latent", "logon", "insession", "resend", "pending", "logout"})
+			stt := r.pick([]string{"latent", "logon", "insession", "resend", "pending", "logout", "logongap"})
 			bs := r.pick([]string{"FIX.4.0", "FIX.4.1", "FIX.4.2", "FIX.4.3", "FIX.4.4", "FIXT.1.1"})
 			switch {
 			case r.chance(1, 2):
